@@ -48,8 +48,19 @@ def compare_history(stream, fmt, events, obs, model_outs, case, check_oracle=Tru
             exp = ref.expect(ev)
             why = oracles.observe_matches(exp, ob, to_json_real)
             if why:
-                stream.fail(dict(case, at=i), "unit %d (%s): %s" % (i, ev_hex(ev)[:40], why),
-                            signature="%s/%s" % (stream.name, why.split(",")[0].split(" ")[0]))
+                clause = why.split(",")[0].split(" ")[0]
+                extra = {}
+                if len(stream.oracle_failures) < 3 and len(events) > 2:
+                    # a smaller history that still violates the same clause (what the replay file shows first)
+                    def still(sub, fmt=fmt, clause=clause, udf=case.get("format") == "@default"):
+                        try:
+                            return first_failure(fmt, sub, use_default_fmt=udf)[1] == clause
+                        except Exception:
+                            return False
+                    small = common.shrink_list(events[:i + 1], still)
+                    extra = {"minimal_events": [ev_hex(e) for e in small]}
+                stream.fail(dict(case, at=i, **extra), "unit %d (%s): %s" % (i, ev_hex(ev)[:40], why),
+                            signature="%s/%s" % (stream.name, clause))
                 check_oracle = False   # the reference state is meaningless after the first failure
         if model_outs is not None:
             mo = model_outs[i] if i < len(model_outs) else None
@@ -60,6 +71,18 @@ def compare_history(stream, fmt, events, obs, model_outs, case, check_oracle=Tru
             if why:
                 stream.disagree(dict(case, at=i), "impl: %s" % why, "model: %r" % (mo,))
                 break
+
+
+def first_failure(fmt, events, use_default_fmt=False):
+    """(index, clause) of the first unit at which the implementation departs from the reference, or (None, None)"""
+    ofmt = "json" if use_default_fmt else fmt
+    obs, _ = run_impl(fmt, events, use_default_fmt=use_default_fmt)
+    ref = oracles.RefReceiver(ofmt)
+    for i, (ev, ob) in enumerate(zip(events, obs)):
+        why = oracles.observe_matches(ref.expect(ev), ob, to_json_real)
+        if why:
+            return i, why.split(",")[0].split(" ")[0]
+    return None, None
 
 
 def run_histories(stream, histories, ctx, label=None, check_oracle=True):
